@@ -63,7 +63,11 @@ def specCheck (define : Bool) (g : GraphVal) (w : Wiring) (iex : List (Str × Li
   let realExports := sortBy Spec.reprStr (w.exports.map fun (n, k, _) => (n, k))
   let wantExports := sortBy Spec.reprStr (impliedExports g)
   if realExports != wantExports then
-    some s!"exports impl={showNK realExports} spec={showNK wantExports}"
+    if !(renamedDefExports g).isEmpty && realExports == sortBy Spec.reprStr (impliedExports (dropRenamedDefs g)) then
+      some ("KF-definition-renamed-by-export: export-map names " ++
+        ", ".intercalate ((renamedDefExports g).map fun e => showStr e.1) ++
+        s!" of definitions are not exported :: exports impl={showNK realExports} spec={showNK wantExports}")
+    else some s!"exports impl={showNK realExports} spec={showNK wantExports}"
   else
     let comps := w.imports.filter fun (n, _) => isUnlocked n
     let wantComps := if define then [] else (instantiatedPkgs g).map fun p => (unlockedName p, Kind.component)
